@@ -29,68 +29,83 @@ def overflow_panic(leaf):
     return leaf.kind == "panic" and str(leaf.info.get("kind", "")).startswith("assert:Overflow")
 
 
+def sd_states(kit):
+    """the four kinds of SettableData state: following nothing / a getter  x  no request / a request"""
+    import sdkit
+    ffn = sdkit.trait_default(kit.prog, "Settable", "follow")
+    sfn = sdkit.trait_default(kit.prog, "Settable", "set")
+    gty = subst(ffn["sig_inputs"][1], kit.sim.identity_gargs(ffn))
+    vty = subst(sfn["sig_inputs"][1], kit.sim.identity_gargs(sfn))
+    ty = kit.base().ty
+    out = []
+    for f in (None, Sym("g_old", gty)):
+        for r in (None, Sym("r_old", vty)):
+            out.append((f, r, kit.make(ty, following=f, request=r)))
+    return out, gty, vty
+
+
+def sd_sanity(chk, kit, key):
+    """the built patterns must actually contain what set / follow were given (otherwise nothing is stored at all)"""
+    import sdkit
+    ok = True
+    if sdkit.PH_V not in repr(kit.pattern(False, True)) or kit.pattern(False, True) == kit.pattern(False, False):
+        chk.violation("C15.B", key + ":store", "a successful set on a new SettableData stores nothing: get_last_request can never return the argument")
+        ok = False
+    if sdkit.PH_G not in repr(kit.pattern(True, False)) or kit.pattern(True, False) == kit.pattern(False, False):
+        chk.violation("C15.F", key + ":follow", "follow must store following = Some(getter): on a new SettableData it stores nothing")
+        ok = False
+    return ok
+
+
 def check_set(chk, prog, sim):
     key = "B:Settable::set"
     chk.obligation(key, "last_request stored only after impl_set succeeded")
+    import sdkit
+    kit = sdkit.kit(sim, prog)
     fn = trait_default(prog, "Settable", "set")
     chk.analysed(fn["pretty"])
-    st = S.State()
-    gargs = sim.identity_gargs(fn)
-    a0 = sim.make_arg(st, "self", subst(fn["sig_inputs"][0], gargs))
-    val = Sym("value", subst(fn["sig_inputs"][1], gargs))
-    leaves = sim.run(fn, gargs, [a0, val], st)
-    ok = True
+    try:
+        ok = sd_sanity(chk, kit, key)
+        states, gty, vty = sd_states(kit)
+    except S.Unsupported as e:
+        chk.violation("analysis-incomplete", key, "SettableData states could not be built through new/set/follow: %s" % e)
+        return
+    val = Sym("value", vty)
     seen = set()
-    for leaf in leaves:
-        chk.evaluated(1, nontrivial=(key, repr(leaf.pc)))
-        if leaf.kind != "return":
-            chk.violation("analysis-incomplete" if leaf.kind == "unsupported" else "C15.B", key, "Settable::set: %s %s" % (leaf.kind, leaf.info.get("msg")))
-            ok = False
-            continue
-        stl = leaf.state
-        ret = sim.final_value(stl, leaf.value)
-        calls = [e for e in leaf.effects if e[0] == "call"]
-        impl = [e for e in calls if e[2].endswith("::impl_set")]
-        data_objs = [o for o in stl.mem if o.startswith("*self.get_settable_data_mut")]
-        stored = None
-        for o in data_objs:
-            d = sim.final_value(stl, stl.mem[o])
-            if isinstance(d, Struct):
-                names = [n for n, _ in sim.adt_fields(d.ty)]
-                lr = d.fields[names.index("last_request")]
-                if not (isinstance(lr, Sym)):
-                    stored = lr
-        if len(impl) != 1 or impl[0][3] != (val,):
-            chk.violation("C15.B", key + ":impl_set", "set must call impl_set exactly once with (a clone of) its argument; calls: %s" % (impl,), fn=fn["pretty"], file=loc(fn["span"]))
-            ok = False
-        if isinstance(ret, Enum) and ret.vname == "Ok":
-            seen.add("ok")
-            exp_ok = isinstance(stored, Enum) and stored.vname == "Some" and stored.fields[0] == val
-            order_ok = calls and calls[0][2].endswith("::impl_set")
-            if not exp_ok or not order_ok:
-                chk.violation("C15.B", key + ":store", "successful set must store Some(value) in last_request after impl_set; stored=%r calls=%s" % (stored, [c[2] for c in calls]),
-                              fn=fn["pretty"], file=loc(fn["span"]))
-                ok = False
-        elif isinstance(ret, Enum) and ret.vname == "Err":
-            seen.add("err")
-            if stored is not None:
-                chk.violation("C15.B", key + ":failed-set-stores", "a failed set (impl_set returned Err) stores %r into last_request" % (stored,), fn=fn["pretty"], file=loc(fn["span"]))
-                ok = False
-            impl_err = [p for p in leaf.pc if p[0] == "variant" and p[2] == "Err"]
-            if not impl_err or "impl_set" not in repr(ret.fields[0]):
-                chk.violation("C15.B", key + ":error", "set must return impl_set's own error, got %r" % (ret,), fn=fn["pretty"])
-                ok = False
-        else:
-            # the outcome of impl_set is returned unsplit: both outcomes are possible on this path
-            seen.update(("ok", "err"))
-            if stored is not None:
-                chk.violation("C15.B", key + ":failed-set-stores", "set stores %r into last_request on a path where impl_set may have failed (its result is returned unchecked)" % (stored,),
-                              fn=fn["pretty"], file=loc(fn["span"]))
-                ok = False
-            else:
-                chk.violation("C15.B", key + ":store", "set never stores last_request on the path returning impl_set's result", fn=fn["pretty"], file=loc(fn["span"]))
-                ok = False
-        chk.sample({"fn": "Settable::set", "path": [list(p) for p in leaf.pc], "returns": repr(ret), "effects": [c[2] for c in calls]}, cap=4)
+    for f, r, sd0 in states:
+        for impl_ok in (True, False):
+            leaves, oid, _ = kit.run_provided("set", sd0, [val], impl_set_ok=impl_ok)
+            for leaf in leaves:
+                chk.evaluated(1, nontrivial=(key, repr(f), repr(r), impl_ok, repr(leaf.pc)))
+                case = "data(following=%r, request=%r), impl_set -> %s" % (f, r, "Ok" if impl_ok else "Err(eset)")
+                if leaf.kind != "return":
+                    chk.violation("analysis-incomplete" if leaf.kind == "unsupported" else "C15.B", key, "Settable::set [%s]: %s %s" % (case, leaf.kind, leaf.info.get("msg")))
+                    ok = False
+                    continue
+                stl = leaf.state
+                ret = sim.final_value(stl, leaf.value)
+                calls = [e for e in leaf.effects if e[0] == "call" and e[2].split("::")[-1] not in ("get_settable_data_mut", "get_settable_data_ref")]
+                impl = [e for e in calls if e[2].endswith("::impl_set")]
+                post = sim.final_value(stl, stl.mem[oid])
+                pf, pr = kit.read(None, post)
+                if len(impl) != 1 or impl[0][3] != (val,) or calls[0] is not impl[0]:
+                    chk.violation("C15.B", key + ":impl_set", "set must call impl_set exactly once, first, with (a clone of) its argument; calls: %s" % ([c[2:] for c in calls],), fn=fn["pretty"], file=loc(fn["span"]))
+                    ok = False
+                if impl_ok:
+                    seen.add("ok")
+                    if not (isinstance(ret, Enum) and ret.vname == "Ok") or pr != val or pf != f:
+                        chk.violation("C15.B", key + ":store", "successful set must store Some(value) in last_request after impl_set (and leave the follow link alone) [%s]; returned %r, data afterwards: following=%r request=%r"
+                                      % (case, ret, pf, pr), fn=fn["pretty"], file=loc(fn["span"]))
+                        ok = False
+                else:
+                    seen.add("err")
+                    if post != sd0:
+                        chk.violation("C15.B", key + ":failed-set-stores", "a failed set (impl_set returned Err) changes the settable data [%s]: following=%r request=%r" % (case, pf, pr), fn=fn["pretty"], file=loc(fn["span"]))
+                        ok = False
+                    if not (isinstance(ret, Enum) and ret.vname == "Err" and ret.fields[0] == Sym("eset")):
+                        chk.violation("C15.B", key + ":error", "set must return impl_set's own error, got %r [%s]" % (ret, case), fn=fn["pretty"])
+                        ok = False
+                chk.sample({"fn": "Settable::set", "case": case, "returns": repr(ret), "effects": [c[2] for c in calls]}, cap=4)
     if seen != {"ok", "err"}:
         chk.violation("C15.B", key + ":paths", "set must have a succeeding and a failing path, saw %s" % seen)
         ok = False
@@ -129,112 +144,102 @@ def check_writers(chk, prog):
 def check_following(chk, prog, sim):
     key = "F:update_following_data"
     chk.obligation(key, "following table")
+    import sdkit
+    kit = sdkit.kit(sim, prog)
     fn = trait_default(prog, "Settable", "update_following_data")
     chk.analysed(fn["pretty"])
-    gargs = sim.identity_gargs(fn)
-    ok = True
-    for cat in ("E", "N", "S"):
-        def hook(sim_, st_, label, method, args, ret_ty, ver, cat=cat):
-            if method.endswith("Getter::get"):
-                return K.build_output(sim_, ret_ty, cat, "0")
-            return None
-        sim.oracle_hook = hook
-        st = S.State()
-        a0 = sim.make_arg(st, "self", subst(fn["sig_inputs"][0], gargs))
-        leaves = sim.run(fn, gargs, [a0], st)
-        sim.oracle_hook = None
-        for leaf in leaves:
-            chk.evaluated(1, nontrivial=(key, cat, repr(leaf.pc)))
-            if leaf.kind != "return":
-                chk.violation("analysis-incomplete" if leaf.kind == "unsupported" else "C15.F", key, "update_following_data: %s %s" % (leaf.kind, leaf.info.get("msg")))
-                ok = False
-                continue
-            ret = sim.final_value(leaf.state, leaf.value)
-            following = [p[2] for p in leaf.pc if p[0] == "variant" and p[1].endswith(".following")]
-            sets = [e for e in leaf.effects if e[0] == "call" and e[2].endswith("Settable::set")]
-            gets = [e for e in leaf.effects if e[0] == "call" and e[2].endswith("Getter::get")]
-            rok = isinstance(ret, Enum) and ret.vname == "Ok"
-            if following == ["None"]:
-                good = rok and not sets and not gets
-                what = "not following: nothing happens"
-            elif cat == "E":
-                good = (not rok) and ret.fields[0] == Sym("e0") and not sets
-                what = "followed getter errs: propagate, set nothing"
-            elif cat == "N":
-                good = rok and not sets
-                what = "followed getter absent: set nothing"
-            else:
-                good = len(sets) == 1 and sets[0][3] == (Sym("v0"),)
-                set_failed = [p for p in leaf.pc if p[0] == "variant" and ".set()" in p[1] and p[2] == "Err"]
-                if isinstance(ret, Sym) and ".set()" in ret.name:
-                    pass   # the outcome of set() is returned as is: propagated by construction
-                elif set_failed:
-                    good = good and not rok
-                else:
-                    good = good and rok
-                what = "followed getter present: exactly one set(value), its error propagated"
-            # the followed getter must not stay borrowed while set() runs (set may itself reach that getter: a queue it pops, a lock it takes)
-            live = []
-            for e in leaf.effects:
-                if e[0] in ("ref_borrow", "ref_borrow_mut"):
-                    live.append(e[1])
-                elif e[0] == "ref_release" and e[1] in live:
-                    live.remove(e[1])
-                elif e[0] == "call" and e[2].endswith("Settable::set") and live:
-                    chk.violation("C15.F", "%s:borrow-across-set" % key, "update_following_data calls set() while the followed getter (%s) is still borrowed: a settable whose set touches that getter panics (RefCell) or deadlocks (Mutex) instead of receiving the value"
-                                  % live[-1], fn=fn["pretty"], file=loc(fn["span"]))
+    try:
+        ok = sd_sanity(chk, kit, key)
+        states, gty, vty = sd_states(kit)
+    except S.Unsupported as e:
+        chk.violation("analysis-incomplete", key, "SettableData states could not be built through new/set/follow: %s" % e)
+        return
+    for f, r, sd0 in states:
+        for cat in ("E", "N", "S"):
+            leaves, oid, _ = kit.run_provided("update_following_data", sd0, follow_cat=cat)
+            for leaf in leaves:
+                chk.evaluated(1, nontrivial=(key, cat, repr(f), repr(r), repr(leaf.pc)))
+                if leaf.kind != "return":
+                    chk.violation("analysis-incomplete" if leaf.kind == "unsupported" else "C15.F", key, "update_following_data: %s %s" % (leaf.kind, leaf.info.get("msg")))
                     ok = False
-                    break
-            if not good:
-                chk.violation("C15.F", "%s:%s:%s" % (key, cat, following), "update_following_data with followed getter %s (%s): returns %r, set calls %s" % (cat, what, ret, sets),
-                              fn=fn["pretty"], file=loc(fn["span"]), path=leaf.pc)
-                ok = False
+                    continue
+                ret = sim.final_value(leaf.state, leaf.value)
+                following = ["None" if f is None else "Some"]
+                sets = [e for e in leaf.effects if e[0] == "call" and e[2].endswith("Settable::set")]
+                gets = [e for e in leaf.effects if e[0] == "call" and e[2].endswith("Getter::get")]
+                rok = isinstance(ret, Enum) and ret.vname == "Ok"
+                if f is None:
+                    good = rok and not sets and not gets
+                    what = "not following: nothing happens"
+                elif len(gets) != 1 or f.name not in gets[0][1]:
+                    good = False
+                    what = "following %s: exactly that getter is polled once (polled: %s)" % (f.name, [g_[1] for g_ in gets])
+                elif cat == "E":
+                    good = (not rok) and isinstance(ret, Enum) and ret.fields[0] == Sym("e0") and not sets
+                    what = "followed getter errs: propagate, set nothing"
+                elif cat == "N":
+                    good = rok and not sets
+                    what = "followed getter absent: set nothing"
+                else:
+                    good = len(sets) == 1 and sets[0][3] == (Sym("v0"),)
+                    set_failed = [p for p in leaf.pc if p[0] == "variant" and ".set()" in p[1] and p[2] == "Err"]
+                    if isinstance(ret, Sym) and ".set()" in ret.name:
+                        pass   # the outcome of set() is returned as is: propagated by construction
+                    elif set_failed:
+                        good = good and not rok
+                    else:
+                        good = good and rok
+                    what = "followed getter present: exactly one set(value), its error propagated"
+                if sim.final_value(leaf.state, leaf.state.mem[oid]) != sd0:
+                    good = False
+                    what += "; the settable data itself is left alone (only set() stores)"
+                # the followed getter must not stay borrowed while set() runs (set may itself reach that getter: a queue it pops, a lock it takes)
+                live = []
+                for e in leaf.effects:
+                    if e[0] in ("ref_borrow", "ref_borrow_mut"):
+                        live.append(e[1])
+                    elif e[0] == "ref_release" and e[1] in live:
+                        live.remove(e[1])
+                    elif e[0] == "call" and e[2].endswith("Settable::set") and live:
+                        chk.violation("C15.F", "%s:borrow-across-set" % key, "update_following_data calls set() while the followed getter (%s) is still borrowed: a settable whose set touches that getter panics (RefCell) or deadlocks (Mutex) instead of receiving the value"
+                                      % live[-1], fn=fn["pretty"], file=loc(fn["span"]))
+                        ok = False
+                        break
+                if not good:
+                    chk.violation("C15.F", "%s:%s:%s" % (key, cat, following), "update_following_data with followed getter %s (%s): returns %r, set calls %s" % (cat, what, ret, sets),
+                                  fn=fn["pretty"], file=loc(fn["span"]), path=leaf.pc)
+                    ok = False
     # follow / stop_following / get_last_request
     for name, expect in (("follow", "Some"), ("stop_following", "None")):
-        f = trait_default(prog, "Settable", name)
-        chk.analysed(f["pretty"])
-        g = sim.identity_gargs(f)
-        st = S.State()
-        args = [sim.make_arg(st, "self", subst(f["sig_inputs"][0], g))]
-        if name == "follow":
-            args.append(Sym("getter", subst(f["sig_inputs"][1], g)))
-        for leaf in sim.run(f, g, args, st):
-            chk.evaluated(1, nontrivial=(key, name))
-            stored = None
-            for o in leaf.state.mem:
-                if o.startswith("*self.get_settable_data_mut"):
-                    d = sim.final_value(leaf.state, leaf.state.mem[o])
-                    if isinstance(d, Struct):
-                        names = [n for n, _ in sim.adt_fields(d.ty)]
-                        stored = d.fields[names.index("following")]
-            extra = [e for e in leaf.effects if e[0] == "call" and e[2].split("::")[-1] not in ("get_settable_data_mut", "get_settable_data_ref")]
-            if extra:
-                chk.violation("C15.F", "%s:%s:side-effect" % (key, name), "%s does more than store the link: it calls %s (nothing may be forwarded, polled or set outside update)"
-                              % (name, [e[2] for e in extra][:3]), fn=f["pretty"], file=loc(f["span"]))
+        f_ = trait_default(prog, "Settable", name)
+        chk.analysed(f_["pretty"])
+        newg = Sym("getter", gty)
+        for f, r, sd0 in states:
+            leaves, oid, _ = kit.run_provided(name, sd0, [newg] if name == "follow" else [])
+            for leaf in leaves:
+                chk.evaluated(1, nontrivial=(key, name, repr(f), repr(r)))
+                extra = [e for e in leaf.effects if e[0] == "call" and e[2].split("::")[-1] not in ("get_settable_data_mut", "get_settable_data_ref")]
+                if extra:
+                    chk.violation("C15.F", "%s:%s:side-effect" % (key, name), "%s does more than store the link: it calls %s (nothing may be forwarded, polled or set outside update)"
+                                  % (name, [e[2] for e in extra][:3]), fn=f_["pretty"], file=loc(f_["span"]))
+                    ok = False
+                pf, pr = kit.read(None, sim.final_value(leaf.state, leaf.state.mem[oid])) if leaf.kind == "return" else ("?", "?")
+                good = leaf.kind == "return" and pf == (newg if expect == "Some" else None) and pr == r
+                if not good:
+                    chk.violation("C15.F", key + ":" + name, "%s must store following = %s and nothing else; from data(following=%r, request=%r) it leaves following=%r request=%r"
+                                  % (name, expect, f, r, pf, pr), fn=f_["pretty"], file=loc(f_["span"]))
+                    ok = False
+    f_ = trait_default(prog, "Settable", "get_last_request")
+    chk.analysed(f_["pretty"])
+    for f, r, sd0 in states:
+        leaves, oid, _ = kit.run_provided("get_last_request", sd0)
+        for leaf in leaves:
+            chk.evaluated(1, nontrivial=(key, "get_last_request", repr(f), repr(r)))
+            got = sim.final_value(leaf.state, leaf.value) if leaf.kind == "return" else None
+            same = isinstance(got, Enum) and ((r is None and got.vname == "None") or (r is not None and got.vname == "Some" and got.fields[0] == r))
+            if not same or sim.final_value(leaf.state, leaf.state.mem[oid]) != sd0:
+                chk.violation("C15.F", key + ":get_last_request", "get_last_request returns %r, not the stored last_request (%r)" % (got, r), fn=f_["pretty"])
                 ok = False
-            good = leaf.kind == "return" and isinstance(stored, Enum) and stored.vname == expect and \
-                (expect == "None" or stored.fields[0] == sim.final_value(leaf.state, args[1]))
-            if not good:
-                chk.violation("C15.F", key + ":" + name, "%s must store following = %s, stored %r" % (name, expect, stored), fn=f["pretty"], file=loc(f["span"]))
-                ok = False
-    f = trait_default(prog, "Settable", "get_last_request")
-    g = sim.identity_gargs(f)
-    st = S.State()
-    for leaf in sim.run(f, g, [sim.make_arg(st, "self", subst(f["sig_inputs"][0], g))], st):
-        chk.evaluated(1, nontrivial=(key, "get_last_request"))
-        r = sim.final_value(leaf.state, leaf.value) if leaf.kind == "return" else None
-        # the stored field as this leaf sees it (a combinator such as as_ref().cloned() splits it into None / Some(x))
-        stored = None
-        for o in leaf.state.mem:
-            if o.startswith("*self.get_settable_data_ref"):
-                d = sim.final_value(leaf.state, leaf.state.mem[o])
-                if isinstance(d, Struct):
-                    names = [n for n, _ in sim.adt_fields(d.ty)]
-                    stored = d.fields[names.index("last_request")]
-        same = stored is not None and (r == stored or (isinstance(r, Enum) and isinstance(stored, Enum) and r.vname == stored.vname and tuple(r.fields) == tuple(stored.fields)))
-        if not same and not (stored is None and "last_request" in repr(r)):
-            chk.violation("C15.F", key + ":get_last_request", "get_last_request returns %r, not the stored last_request" % (r,), fn=f["pretty"])
-            ok = False
     if ok:
         chk.discharge(key)
 
